@@ -489,7 +489,7 @@ def run(ctx):
         oldf = sorted(abstract_name(f) for f in os.listdir(tmpls[n]))
         if sc["run"] != "ref" and sc["r"]["files"] not in (oldf, refs[n]["files"]):
             nontrivial += 1
-    for sc in scen[len(cfgs):len(cfgs) + 400:97]:
+    for sc in scen[len(cfgs)::max(1, (len(scen) - len(cfgs)) // 5)]:
         ctx.sample({"config": cname(sc["cfg"]), "run": sc["run"], "point": sc["point"],
                     "files": sc["r"]["files"], "view": sc["r"]["view"]["view"]})
     ctx.assumptions += [
